@@ -12,10 +12,28 @@ Tie (harness/c13):
           corrupted entries planted under the final name; every directory listing is compared with the state of
           Rt.CacheFs (fs_mismatches) and every planted entry with the codec model (p_mismatches).
 Oracle (Python only, no model): a file under a final name always equals the entry of an undisturbed run and parses;
-a later process always compiles and runs correctly; truncated / other-version / corrupted-code entries are never used."""
+a later process always compiles and runs correctly; truncated / other-version / corrupted-code entries are never used.
+
+Second part (checks/c13ext.py, coq/Rt/CacheExt.v, theorems C13_key_* .. C13_limit_* of coq/Properties/C13.v):
+  settings  one binary under a lattice of settings (listener factory absent / on all / declining all / on subsets,
+            close-on-context-done, CoreFeatures, capacity-from-max, memory limit, debug info, interpreter), every point cold
+            in a directory of its own, then all points in several orders against ONE directory, a fresh process each: the same
+            file name only for the same generated code, every warm process behaves (results, listener events, termination
+            of a long loop under a deadline, rejection by the feature set) as the cold one, the directory grows by exactly
+            the cold entry; the file names are re-computed from the model's key strings (real sha256 in Python) and the
+            sequence loaded / compiled is compared with Rt.CacheExt.session inside Coq;
+  damaged   the reader alone, one process per damaged entry under the 4 GB address-space limit: high bytes of the count, the
+            code length and the source-map length (outcome, Go heap bytes of the call, length handed to mmap vs
+            Rt.CacheExt.alloc_c); the whole runtime on entries damaged in one field each (magic, count, offsets, code length,
+            checksum, flag), with trailing bytes, on a DIRECTORY under the final name, an unreadable entry (reader without
+            privileges), a cache directory removed between runs and inside a run (Rt.CacheExt.d_mismatches);
+  samekey   16 goroutines of ONE process compile the same binary at once through one runtime / one cache object / a cache
+            object each, directory empty, warm, holding another version's entry, holding a truncated entry; plus many warm
+            rounds on a module with 96 function types."""
 import base64, json, os, shutil, tempfile
 from concurrent.futures import ThreadPoolExecutor
 from vcheck import *
+import c13ext
 
 VER = b"dev"          # version.GetWazeroVersion() of a harness build (main module, "(devel)" -> Default)
 MAGIC = b"WAZEVO"
@@ -295,11 +313,16 @@ def run(tier, seed):
     ck.trusted += ["hand transcription of serializeCompiledModule/deserializeCompiledModule (coq/Rt/CacheCodec.v) and of fileCache.Add (coq/Rt/CacheFs.v), tied by the correspondence run",
                    "harness/c13 (Go, overlay export of the two codec functions), checks/c13.py (case conversion, oracle, CRC-32C and entry parser of the oracle)",
                    "POSIX semantics of the kernel: rename(2) is atomic, O_EXCL creation is exclusive, a killed process's completed writes persist",
-                   "crash points are the verif-tagged hooks in internal/filecache (os.Exit at the named point) and SIGKILL at random times"]
+                   "crash points are the verif-tagged hooks in internal/filecache (os.Exit at the named point) and SIGKILL at random times",
+                   "hand transcription of Module.AssignModuleID / fileCacheKey (key strings), of the reader's two allocation requests and of the Get/deserialize/Delete/compile/Add sequence of engine.CompileModule (coq/Rt/CacheExt.v), tied by the settings / damaged streams; sha256 itself (Python hashlib) only enters as the hypothesis 'injective'",
+                   "checks/c13ext.py (oracles of the second part)"]
     ck.assumptions += ["a crash is the death of the process (kill/exit), not a power failure: durability after power loss is modelled (fsync before rename, C13_crash_safe_fs states the final name only ever holds fsynced content) but cannot be exercised here",
                        "compiler determinism (same module => same bytes) is observed on three fresh processes per module, not proved",
                        "reader.Read on a regular file returns the full header unless the file is shorter",
-                       "entries without code (modules with no local function): an entry cut inside its last 4 bytes is still accepted and yields the identical code-less module (C13_prefix_no_code_exact)"]
+                       "entries without code (modules with no local function): an entry cut inside its last 4 bytes is still accepted and yields the identical code-less module (C13_prefix_no_code_exact)",
+                       "the hash is injective (hypothesis of the C13_key_* / C13_warm_* theorems); for binaries of different lengths the hashed string is ambiguous as a string (CacheExtP.id_pre_not_injective), the theorems speak about binaries of one length",
+                       "the checksum covers the code only: function offsets, source map, a code length of zero and the count's high bytes are NOT protected (C13_limit_* theorems); what the real runtime does with such entries is reported under part=damaged-unprotected (outside the letter of the property text, C13_DAMAGED_AS_NOTES=1 turns these into notes)",
+                       "debug info on/off shares the key: the entries differ in the source map only (the code is identical), whichever is written first stays"]
     proofs_ok = ck.proofs()
     if tier == "quick":
         ncodec, nmods, nconc, ncopies = 40, 4, 6, 2
@@ -434,6 +457,7 @@ def run(tier, seed):
         ck.violation("harness-crash", {"kind": "crash", "mode": "fs"}, {"rc": rc, "tail": out[-3000:]})
         return ck.finish()
     refs = {}
+    ext_events = []
     fcases, fmeta, pcases, pmeta, defs = [], [], [], [], []
     for ev in evs:
         m = ev["mod"]
@@ -457,6 +481,9 @@ def run(tier, seed):
                 defs.append("Definition e%d : bytes := %s." % (m, zl(rf[0][1])))
             continue
         if m not in refs:
+            continue
+        if ev["kind"] in ("damaged", "special"):
+            ext_events.append(ev)      # judged by c13ext.fs_ext_part
             continue
         name, entry = refs[m]
         L, en = len(entry), "e%d" % m
@@ -541,7 +568,12 @@ def run(tier, seed):
             report("model-differs", {"kind": "model-differs", "part": "planted", "class": ev["what"], "model_class": lst[i + 1]},
                    {"why": "a planted entry was treated differently from the model (0 used, 1 discarded+recompiled, 2 reported, 3 panic; model says %d)" % lst[i + 1],
                     "event": ev}, no_input=not any(fs_oracle(ev, refs[ev["mod"]])))
-    ck.cases = nevals + len(fcases) + len(pcases) + many_cases
+    # ---------------------------------------------------------------- second part (checks/c13ext.py)
+    ext_cases = c13ext.fs_ext_part(ck, report, dist, refs, ext_events, head)
+    ext_cases += c13ext.settings_part(ck, report, dist, binp, tier, seed)
+    ext_cases += c13ext.damaged_part(ck, report, dist, binp, tier, seed)
+    ext_cases += c13ext.samekey_part(ck, report, dist, binp, tier, seed)
+    ck.cases = nevals + len(fcases) + len(pcases) + many_cases + ext_cases
     seen = set()
     for c in cases:
         if c["ser_ok"]:
@@ -555,7 +587,9 @@ def run(tier, seed):
     ck.extra["rule"] = ("codec: random compiledModule records (versions of length 0..300, offsets incl. int64 boundaries, code 0..64 bytes, source map on/off, "
                         "ill-formed source maps) from VERIF_SEED; each record = 1 serialize + 1 complete read + one read per truncation length + one per probe; "
                         "distinct = distinct entries; directory: per generated module 3 fresh processes (determinism), 11 crash points each followed by a fresh process, "
-                        "concurrent rounds (2-3 processes, hook crashes, SIGKILLs), planted truncated/other-version/corrupted entries; each listing is one case")
+                        "concurrent rounds (2-3 processes, hook crashes, SIGKILLs), planted truncated/other-version/corrupted entries; each listing is one case; "
+                        "second part: per generated module 13 (thorough 19) settings x (cold + 3 (6) orders) fresh processes, each process one case; damaged entries: one reader "
+                        "process per changed byte; one later process per entry damaged in one field / special file; one case per round of 16 (32) goroutines on one key")
     ck.extra["model_mismatches"] = len([1 for v_ in ck.violations if v_["kind"] == "model-differs"])
     if not proofs_ok and not any(v_["kind"] == "property-fails" for v_ in ck.violations):
         ck.violation("proof-broken", {"kind": "proof-broken"}, getattr(ck, "proof_failure", {}), no_input=True)
